@@ -185,13 +185,17 @@ def scaleOfFlag (key : String) : Except Err Scale :=
     | some s => .ok s
     | none => .error .notFound
 
-/-- `crd text conv syllable|degree` -/
-def cmdTextConv (mode : Mode) (key : String) (input : List Nat) : Except Err (List Instance) := do
+/-- `crd text conv syllable|degree` on decoded runes -/
+def cmdTextConvChars (mode : Mode) (key : String) (input : List Char) : Except Err (List Instance) := do
   let s ← match mode with
     | .syllable => scaleOfFlag key
     | .degree => pure default
-  let t ← parseText input
+  let t ← parseTextChars input
   let _ ← classify t
   convItems mode s t
+
+/-- `crd text conv syllable|degree` -/
+def cmdTextConv (mode : Mode) (key : String) (input : List Nat) : Except Err (List Instance) :=
+  cmdTextConvChars mode key (decodeUtf8 input)
 
 end Crd
